@@ -77,6 +77,14 @@ CLAIMS["C14"] = {
     "design_ref": "DESIGN.md §5 C14",
 }
 
+CLAIMS["C12"] = {
+    "technique": "static analysis: guard dominance and avoid-set reachability in backend() and get_user_command(), who-may-write/read on the HAS_CMD_TURN bit over all units",
+    "text": "Decides the turn mechanism structurally: the grant loop covers every slot below max_users and precedes the command loop on every path of a backend iteration; "
+            "the turn is consumed and a user selected only under (complete command) and (turn held), a user without a turn keeps command and turn, and no code but the grant loop and get_user_command touches the bit "
+            "(so command() issued from LPC is never limited). Fairness over schedules, per-user ordering and the round-robin cursor arithmetic are not decided.",
+    "design_ref": "DESIGN.md §5 C12",
+}
+
 NOT_APPLICABLE = {
     "C18": "Line/trace correctness is a value-level question about run-length tables (encode in the code generator, decode in find_line); no clause of it is visible in the shape of the code, so static analysis gives no verdict (DESIGN.md §6).",
 }
